@@ -17,7 +17,7 @@ import GqlProofs.ValSpec.ValuesCorrectFinal
 import GqlProofs.Validate.OverlapSound
 import GqlProofs.Props.C18
 import GqlProofs.Validate.OverlapWitness
-import GqlProofs.Validate.OverlapArgsSym
+import GqlProofs.Validate.OverlapIds
 /-
   C08 — validation accepts exactly what the rules allow.
 
@@ -1697,15 +1697,13 @@ theorem C08_overlap_sound_spec (s : Schema) (d : QueryDoc) (S : SemHyps s d) (t 
 /-- hypotheses of `C08_OverlappingFieldsCanBeMerged` that are not specification predicates: loaded
     schemas (`C07`: closed field types, `String` present, keys consistent) and the node identity
     assumption of the rule model (DESIGN §4; checked by the harness on every document,
-    `overlap-selection-identity`) -/
+    `overlap-selection-identity`) in the form of ONE decidable property of the syntax tree: the
+    first nodes of the non-empty selection sets of the document start at pairwise different offsets -/
 structure C08OverlapHyps (s : Schema) (d : QueryDoc) : Prop where
   fieldTypesClosed : Gql.Spec.ClosedFieldTypes s
   hasString : (s.type? (str "String")).isSome
   keys : KeysOK s
-  /-- a selection set of the document is identified by its first selection node -/
-  idsInj : IdsInj s d
-  /-- the sub-selection of a field or inline fragment is not the selection set of a fragment definition -/
-  idsNested : IdsNested s d
+  setStarts : SetStartsNodup d
 
 /-- **§5.3.2 — OverlappingFieldsCanBeMerged reports nothing iff `Spec.fieldSelectionMerging` holds**, for
     documents without fragment cycles and with unique fragment names.  Every other hypothesis is a
@@ -1730,7 +1728,7 @@ theorem C08_OverlappingFieldsCanBeMerged (s : Schema) (d : QueryDoc) (ho : C08Ov
     rw [hq]
     rfl
   exact overlap_iff s d ⟨hwp, hfs, hleaf, hparents, ho.keys⟩ hj hfn hused (argsSym_of_spec hargs hinput)
-    (argsRefl_of_spec hinput) ho.idsInj ho.idsNested
+    (argsRefl_of_spec hinput) (idsInj_of_starts ho.setStarts) (idsNested_of_starts ho.setStarts)
 
 /-- the 27 default rules -/
 def c08AllRules : List Rule :=
